@@ -187,6 +187,14 @@ func perturbations(base DagCase) []DagCase {
 				shift(&c, i, 0)
 				out = append(out, c)
 
+				// the limit applies to every commit that is not a merge, whatever its pack holds
+				c = clone()
+				c.Perturb, c.At, c.Intent = "far-jump-on-empty-pack", i, "refuse"
+				c.Commits[i].Edit = maxParent(c, i) + refmodel.MaxHop + 5_000_000_000
+				c.Commits[i].NOps = 0
+				shift(&c, i, 0)
+				out = append(out, c)
+
 				c = clone()
 				c.Perturb, c.At, c.Intent = "jump-at-limit", i, "accept"
 				c.Commits[i].Edit = maxParent(c, i) + refmodel.MaxHop
